@@ -169,8 +169,50 @@ def tolerance_setter_block(ctx, rng):
                 ctx.oracle("adaptive-run-succeeds", False, dict(inp, cause=repr(e.__cause__)[:120]), what="run with setter tolerances failed: %r" % (e.__cause__,))
 
 
+def undefined_estimate_block(ctx):
+    """an error estimate that is not a number (0/0 for an identically zero component under purely relative control; overflow of the stages
+    of a far too long first attempt): such a step cannot be certified - the call raises, or whatever it records is accurate and finite"""
+    def osc(t, y):
+        return np.array([y[1], -y[0], -y[2]])
+
+    def cubic(sign):
+        return lambda t, y: -sign * y ** 3
+    rtol = 1e-8
+    for name in ["RK45CKSolver", "DOPRI45", "RK8713MSolver", "HeunEulerSolver"]:
+        for (tag, f, y0, tf, dt0, atol, exact) in [
+                ("zero-component-relative-control", osc, np.array([1.0, 0.0, 0.0]), 2.0, 0.01, 0.0, lambda t: np.array([np.cos(t), -np.sin(t), 0.0])),
+                ("zero-component-relative-control", osc, np.array([1.0, 0.0, 0.0]), -2.0, 0.3, 0.0, lambda t: np.array([np.cos(t), -np.sin(t), 0.0])),
+                ("overflowing-first-attempt", cubic(1.0), np.array([10.0]), 1.0, 1.0, 1e-10, lambda t: np.array([10.0 / np.sqrt(1 + 200.0 * abs(t))])),
+                ("overflowing-first-attempt", cubic(-1.0), np.array([10.0]), -1.0, 1.0, 1e-10, lambda t: np.array([10.0 / np.sqrt(1 + 200.0 * abs(t))]))]:
+            if name == "HeunEulerSolver" and tag == "overflowing-first-attempt":
+                continue
+            inp = dict(kind="undefined-estimate", scenario=tag, method=name, tf=tf, dt0=dt0, rtol=rtol, atol=atol)
+            ode = de.OdeSystem(f, y0=y0.copy(), t=(0.0, tf), dt=dt0, rtol=rtol if name != "HeunEulerSolver" else 1e-5, atol=atol)
+            ode.set_method(getattr(I, name))
+            budget = [0]
+
+            def cb(o, budget=budget):
+                budget[0] += 1
+                if budget[0] > 20000:
+                    raise RuntimeError("step budget")
+            try:
+                with np.errstate(all="ignore"):
+                    ode.integrate(callback=[cb])
+                raised = None
+            except de.exception_types.FailedIntegration as e:
+                raised = type(e.__cause__).__name__ if e.__cause__ is not None else "FailedIntegration"
+            ts, ys = np.array(ode.t), np.array(ode.y)
+            finite = bool(np.all(np.isfinite(ys)))
+            err = max(float(np.max(np.abs(y - exact(t)))) for t, y in zip(ts, ys)) if finite else float("inf")
+            lim = 1e3 * (1e-5 if name == "HeunEulerSolver" else rtol) * (1 + abs(tf)) * max(1.0, float(np.max(np.abs(y0)))) + 1e3 * atol
+            ctx.oracle("uncertifiable-step-is-not-recorded", finite and err <= lim, dict(inp, raised=raised, steps=len(ts) - 1, error=err, bound=lim),
+                       key="undefined-estimate-accepted", what="%s: recorded states off by %.2e (bound %.1e) after %d steps, finite=%s, raised=%r" % (tag, err, lim, len(ts) - 1, finite, raised))
+            ctx.count("undefined-estimate:%s:%s" % (tag, "raised" if raised else "completed"))
+
+
 def run(ctx):
     rng = ctx.rng
+    undefined_estimate_block(ctx)
     tolerance_setter_block(ctx, rng)
     lines, cases = [], []
     names = PAIRS_EXPLICIT[:4] + (PAIRS_IMPLICIT[:1] if ctx.quick() else PAIRS_EXPLICIT[4:] + PAIRS_IMPLICIT)
